@@ -238,6 +238,16 @@ def winit : WState := fun _ => init
 /-- `WideSemMap` with any shard array and any (deterministic) routing function `idx` -/
 def MW (c : Cfg) (rw : Nat) (idx : Key → Nat) : LTS WState Act := ⟨winit, wstep c rw idx⟩
 
+/-- what `remap` can route: `SimpleIndex` / `XHashIndex` end in `remap.ToBytes`, which panics
+    (`unsupported.type.for.slot`) for key kinds outside its arms (pointers, floats, structs, bools …) BEFORE any
+    lock is taken or anything is stored. On a sharded map a call on such a key is therefore no step at all. -/
+def wstepR (c : Cfg) (rw : Nat) (idx : Key → Nat) (routable : Key → Bool) (ws : WState) (a : Act) : Option WState :=
+  if routable a.key then wstep c rw idx ws a else none
+
+/-- `WideSemMap` as it is today: routing function `idx`, defined on the `routable` keys only -/
+def MWR (c : Cfg) (rw : Nat) (idx : Key → Nat) (routable : Key → Bool) : LTS WState Act :=
+  ⟨winit, wstepR c rw idx routable⟩
+
 /-- the single map a sharded map behaves like: key `k` read from the shard it routes to -/
 def wproj (idx : Key → Nat) (ws : WState) : State := fun k => ws (idx k) k
 
